@@ -199,6 +199,12 @@ def run(pid, repo='/repo'):
     # D33
     case('D33 replace with an escape sequence in the replacement skips matches', {'C11': 'replace_settings', 'C10': 'replace_text'},
          lambda: None if A('bcbc').replace('c', '\x1b[4mZ').base_str == 'bZbZ' else A('bcbc').replace('c', '\x1b[4mZ').base_str)
+    # D34 (found by the thorough tier's twin execution)
+    def d34():
+        a = S('a\x1b[') + '1mbc'
+        c = a.clear_formatting()
+        return None if c.base_str == a.base_str and str(c) == a.base_str else '%r vs %r' % (c.base_str, a.base_str)
+    case('D34 AnsiStr.clear_formatting re-parses the text', {'C13': 'ansistr_op_eq'}, d34)
     # D26 — known finding: byte-level idempotence of simplify() with verbatim multi-code settings
     def d26(build):
         def f():
